@@ -364,6 +364,30 @@ func c30(x *Ctx) {
 			}
 			return nil, false
 		}
+		// the tick's work may be a method the goroutine calls: the decrement is looked for there too
+		body := f
+		found := false
+		eng.Instrs(f, func(in ssa.Instruction) {
+			if _, ok := isUpd(in, "timeLeft"); ok {
+				found = true
+			}
+		})
+		if !found {
+			eng.Instrs(f, func(in ssa.Instruction) {
+				if cl, ok := in.(*ssa.Call); ok && !found {
+					if g := cl.Call.StaticCallee(); g != nil && g.Blocks != nil && x.P.FuncRel(g) == pkg {
+						eng.Instrs(g, func(i2 ssa.Instruction) {
+							if _, ok := isUpd(i2, "timeLeft"); ok && !found {
+								found, body = true, g
+							}
+						})
+					}
+				}
+			})
+		}
+		tickerFn := f
+		f = body
+		_ = tickerFn
 		var decs []*ssa.MapUpdate
 		eng.Instrs(f, func(in ssa.Instruction) {
 			if mu, ok := isUpd(in, "timeLeft"); ok {
